@@ -59,3 +59,13 @@ Proof. exists (S k). split; [|apply Kn_gonality]. rewrite Kn_nv. unfold complete
 (* ---- CFGraph.get_genus: total - |V| + 1 on the bookkeeping state; with the graph invariant (C13) that is the genus of the multigraph ---- *)
 Theorem get_genus_eq s (vs : list Z) : length vs = gn s -> CFGraph_get_genus (tot s) vs = g_genus s.
 Proof. intros H. unfold CFGraph_get_genus, g_genus, py_len. now rewrite H. Qed.
+
+(* ---- CFGraph.is_loopless: true exactly when the two names differ (as strings, not as objects) ---- *)
+Lemma py_str_eqb_iff a : forall b, py_str_eqb a b = true <-> a = b.
+Proof. induction a as [|x a IH]; intros [|y b]; cbn; split; intros H; try discriminate; auto.
+  - apply andb_true_iff in H. destruct H as [H1 H2]. apply N.eqb_eq in H1. apply IH in H2. now subst.
+  - inversion H; subst. rewrite N.eqb_refl. cbn. now apply IH. Qed.
+Theorem is_loopless_spec a b : CFGraph_is_loopless a b = true <-> a <> b.
+Proof. unfold CFGraph_is_loopless. rewrite negb_true_iff. split.
+  - intros H E. apply py_str_eqb_iff in E. congruence.
+  - intros H. destruct (py_str_eqb a b) eqn:E; [|reflexivity]. apply py_str_eqb_iff in E. contradiction. Qed.
